@@ -246,6 +246,7 @@ class PortPool(Model):
         super().__init__()
         self.cnt = cnt if cnt is not None else z3.K(z3.IntSort(), z3.IntVal(0))
         self.size = size if size is not None else z3.IntVal(0)
+        self.inflight = None  # ghost: port taken by the running task and neither put back nor registered yet
 
     def getattr(self, it, name):
         if name == "put_nowait":
@@ -255,6 +256,8 @@ class PortPool(Model):
                 p = as_int(port)
                 self.cnt = z3.Store(self.cnt, p, self.cnt[p] + 1)
                 self.size = z3.simplify(self.size + 1)
+                if self.inflight is not None and self.inflight is port:
+                    self.inflight = None
                 i.ctx.event("pool.put", port)
 
             return Builtin("pool.put_nowait", put)
@@ -269,6 +272,9 @@ class PortPool(Model):
                 i.ctx.assume(prio.t >= 0)
                 self.cnt = z3.Store(self.cnt, port.t, self.cnt[port.t] - 1)
                 self.size = z3.simplify(self.size - 1)
+                if self.inflight is not None:
+                    i.ctx.check("pool/second-port-taken-while-one-is-in-flight", z3.BoolVal(False), info={"props": ["C11"]})
+                self.inflight = port
                 i.ctx.event("pool.get", port)
                 return (prio, port)
 
@@ -476,3 +482,44 @@ def install(it):
 
 def _unsup(m):
     raise Unsupported(m)
+
+
+class SymIntSet(Model):
+    """a python set of ints of unknown size: characteristic function Array Int Bool"""
+
+    model_name = "intset"
+
+    def __init__(self, arr=None):
+        super().__init__()
+        self.arr = arr if arr is not None else z3.K(z3.IntSort(), z3.BoolVal(False))
+
+    @staticmethod
+    def fresh(hint="set"):
+        return SymIntSet(z3.Const(f"{hint}!{next(_set_ctr)}", z3.ArraySort(z3.IntSort(), z3.BoolSort())))
+
+    @staticmethod
+    def of(pyset):
+        s = SymIntSet()
+        for x in pyset:
+            s.arr = z3.Store(s.arr, as_int(x), z3.BoolVal(True))
+        return s
+
+    def contains(self, it, item):
+        return it.mk_bool(self.arr[as_int(item)])
+
+    def getattr(self, it, name):
+        if name == "add":
+
+            def add(i, a, k):
+                self.arr = z3.Store(self.arr, as_int(a[0]), z3.BoolVal(True))
+
+            return Builtin("intset.add", add)
+        raise Unsupported("set." + name)
+
+    def havoc(self, it, name):
+        return SymIntSet.fresh(name)
+
+
+import itertools as _it
+
+_set_ctr = _it.count()
